@@ -296,3 +296,13 @@ w("C08", "polars float default fills NaN only again", BL + "components.py",
   "            expr = expr.fill_nan(default_value).fill_null(default_value)\n", "            expr = expr.fill_nan(default_value)\n")
 w("C08", "pandas add_missing_columns re-selects the schema columns only", BP + "container.py",
   "        concat_obj = concat_obj[concat_ordered_cols]\n", "        concat_ordered_cols = [*schema.columns]\n        concat_obj = concat_obj[concat_ordered_cols]\n")
+
+# ---- defects found by the round-3 hunt and repaired (must be reported again if they return) -----------------------
+w("C08", "polars add_missing_columns passes the default bare again", BL + "container.py",
+  "                k: (\n                    v.default\n                    if isinstance(v.default, pl.Expr)\n                    else pl.lit(v.default)\n                )\n",
+  "                k: v.default\n")
+w("C11", "polars check_nullable renames instead of selecting the output column", BL + "components.py",
+  "                    check_output=isna.select(\n                        pl.col(column).alias(CHECK_OUTPUT_KEY)\n                    ).collect(),",
+  "                    check_output=isna.collect().rename(\n                        {column: CHECK_OUTPUT_KEY}\n                    ),")
+w("C19", "polars null outputs undecided when ignore_na is False", BL + "checks.py",
+  "        else:\n            # polars aggregations skip nulls: a null output counts as a\n            # failure when null values are not ignored\n            results = results.with_columns(\n                pl.col(CHECK_OUTPUT_KEY).fill_null(False)\n            )\n", "")
